@@ -11,6 +11,7 @@ mod apprpc;
 mod appsmb;
 mod bfs;
 mod corpus;
+mod deviate;
 mod driver;
 mod engine;
 mod mask;
